@@ -468,11 +468,20 @@ pub struct Handle {
 impl Handle {
     /// Sets the logging configuration.
     pub fn set_config(&self, config: Config) {
-        let shared = SharedLogger::new(config);
-        log::set_max_level(shared.root.max_log_level());
-        #[cfg(feature = "verif_hooks")]
-        crate::verif_hooks::critical_section_point("set_config:between-max-level-and-store");
-        self.shared.store(Arc::new(shared));
+        // The global max level and the snapshot are two separate writes: concurrent callers take
+        // turns so that the pair left behind always belongs to one configuration.
+        static SET_CONFIG: std::sync::Mutex<()> = std::sync::Mutex::new(());
+
+        let shared = Arc::new(SharedLogger::new(config));
+        let old = {
+            let _guard = SET_CONFIG.lock().unwrap_or_else(|e| e.into_inner());
+            log::set_max_level(shared.root.max_log_level());
+            #[cfg(feature = "verif_hooks")]
+            crate::verif_hooks::critical_section_point("set_config:between-max-level-and-store");
+            self.shared.swap(shared)
+        };
+        // the replaced snapshot (and its appenders) is released outside the lock
+        drop(old);
     }
 }
 
